@@ -245,7 +245,7 @@ void SQuIDS::Set_xrange(double xi, double xf, std::string type){
 
   if(type=="linear" || type=="Linear" || type=="lin" || type=="Lin"){
     for(unsigned int e1 = 0; e1 < nx; e1++){
-      x[e1]=xi+(xf-xi)*static_cast<double>(e1)/static_cast<double>(nx-1);
+      x[e1]=xi+(xf-xi)*(static_cast<double>(e1)/static_cast<double>(nx-1));
     }
   }else if(type=="log" || type=="Log"){
     double xmin_log,xmax_log;
